@@ -321,6 +321,61 @@ pub fn tower_text(t: &Tower, depth: usize, closed: bool) -> String {
     s
 }
 
+/// Recursion units for the nesting-bound sweep: (context prefix, unit). A tower is
+/// `prefix + unit * depth + tail`, left unclosed: the parser unwinds `depth` productions
+/// without consuming anything after the tail, which is where a look-ahead budget that is
+/// not proportional to the nesting bound runs out.
+pub const RECURSION_UNITS: &[(&str, &str)] = &[
+    ("fn f() { ", "["),
+    ("fn f() { ", "{ "),
+    ("fn f() { ", "#("),
+    ("fn f() { ", "f("),
+    ("fn f() { ", "f(a: "),
+    ("fn f() { ", "x.y("),
+    ("fn f() { ", "-"),
+    ("fn f() { ", "!"),
+    ("fn f() { ", "fn() { "),
+    ("fn f() { ", "fn(a) { let b = "),
+    ("fn f() { ", "case x { _ -> "),
+    ("fn f() { ", "case x { a if "),
+    ("fn f() { ", "case x { a as b if "),
+    ("fn f() { ", "case x { a | "),
+    ("fn f() { ", "case x { ["),
+    ("fn f() { ", "case x { #("),
+    ("fn f() { ", "case x { A("),
+    ("fn f() { ", "case x { A(b: "),
+    ("fn f() { ", "case x { \"a\" <> "),
+    ("fn f() { ", "case "),
+    ("fn f() { ", "case x, "),
+    ("fn f() { ", "<<"),
+    ("fn f() { ", "<<a:size("),
+    ("fn f() { ", "todo as "),
+    ("fn f() { ", "panic as "),
+    ("fn f() { ", "let a = "),
+    ("fn f() { ", "let assert [a, ..] = "),
+    ("fn f() { ", "use a <- "),
+    ("fn f() { ", "x |> "),
+    ("fn f() { ", "x + "),
+    ("fn f() { ", "x == "),
+    ("fn f() { ", "[1, .."),
+    ("fn f() { ", "#(1, "),
+    ("fn f() { ", "let ["),
+    ("fn f() { ", "let #("),
+    ("fn f() { ", "let a: List("),
+    ("fn f(a: ", "List("),
+    ("fn f(a: ", "#("),
+    ("fn f() -> ", "fn() -> "),
+    ("fn f() -> ", "fn("),
+    ("type A = ", "List("),
+    ("type A = ", "#(Int, "),
+    ("type T { A(x: ", "List("),
+    ("type T { A(", "#("),
+    ("const c = ", "["),
+    ("const c = ", "#("),
+    ("const c: ", "List("),
+    ("const c = ", "A("),
+];
+
 #[derive(Clone, Debug)]
 pub struct Chain {
     pub name: &'static str,
